@@ -759,10 +759,17 @@ impl Transformer {
 
         let mut has_svg_element = false;
         if let (pre_svg, Some(first_svg), remain) = events.partition("svg") {
-            pre_svg.write_to(writer)?;
-            self.write_root_svg(first_svg, bbox, writer)?;
-            events = remain;
-            has_svg_element = true;
+            // Only a root <svg> is given root attributes; one which follows (or is
+            // nested in) other elements is part of a fragment.
+            let is_root = !pre_svg
+                .iter()
+                .any(|ev| matches!(ev, OutputEvent::Start(_) | OutputEvent::Empty(_)));
+            if is_root {
+                pre_svg.write_to(writer)?;
+                self.write_root_svg(first_svg, bbox, writer)?;
+                events = remain;
+                has_svg_element = true;
+            }
         }
 
         if self.context.config.debug {
